@@ -28,3 +28,7 @@ open UtilModel
 #print axioms Memo.C16_obs_memo
 #print axioms UtilModel.C16_accepted_once
 #print axioms UtilModel.C16_accepted_memo
+#print axioms UtilModel.complete_once
+#print axioms UtilModel.reject_sound_once
+#print axioms UtilModel.complete_memo
+#print axioms UtilModel.reject_sound_memo
